@@ -33,8 +33,11 @@ def _mk_device(tdgl, lam=1.0, xi=0.5):
     return dev
 
 
+SOLVE_TIME = [0.25]
+
+
 def _mk_options(tdgl, path, screening=True):
-    return tdgl.SolverOptions(solve_time=0.25, dt_init=1e-4, dt_max=2e-2, adaptive=True, adaptive_window=3, save_every=6, include_screening=screening, screening_tolerance=1e-3,
+    return tdgl.SolverOptions(solve_time=SOLVE_TIME[0], dt_init=1e-4, dt_max=2e-2, adaptive=True, adaptive_window=3, save_every=6, include_screening=screening, screening_tolerance=1e-3,
                               field_units="mT", current_units="uA", output_file=path, progress_interval=0)
 
 
@@ -66,7 +69,7 @@ def _read(path):
 
 def _diff(ref, got):
     if sorted(ref) != sorted(got):
-        return dict(what="different frames / datasets", only_fresh=sorted(set(ref) - set(got))[:4], only_with_history=sorted(set(got) - set(ref))[:4])
+        return dict(difference="different frames / datasets", only_fresh=sorted(set(ref) - set(got))[:4], only_with_history=sorted(set(got) - set(ref))[:4])
     for k in ref:
         a, b = ref[k], got[k]
         if a.shape != b.shape or not np.array_equal(a, b, equal_nan=True):
@@ -81,11 +84,15 @@ def search(seed=0, reduced=False):
     os.environ.setdefault("TQDM_DISABLE", "1")
     bad, n = [], 0
     base = _mk_device(tdgl)
-    base.make_mesh(max_edge_length=0.5, smooth=5)
+    SOLVE_TIME[0] = 0.1 if reduced else 0.25
+    base.make_mesh(max_edge_length=(0.75 if reduced else 0.5), smooth=5)
+
+    from tdgl.finite_volume.mesh import Mesh
 
     def fresh_device(lam=1.0, xi=0.5):
         d = _mk_device(tdgl, lam, xi)
-        d.mesh = base.mesh          # the mesher is not under test here: one dimensionless mesh for every run
+        # the mesher is not under test here: every device gets its OWN Mesh object with the same (recomputed) contents
+        d.mesh = Mesh.from_triangulation(base.mesh.sites.copy(), base.mesh.elements.copy(), create_submesh=True)
         return d
 
     with tempfile.TemporaryDirectory() as td:
@@ -119,12 +126,13 @@ def search(seed=0, reduced=False):
         # ---- options reused
         def h_options():
             o = _mk_options(tdgl, os.path.join(td, "o_pre.h5"))
+            fresh = _mk_options(tdgl, os.path.join(td, "o_main.h5"))
             o.adaptive, o.include_screening, o.solve_time, o.save_every, o.dt_init = False, False, 0.02, 3, 2e-3
             f, c = _mk_drive(tdgl)
             run(fresh_device(), o, f, c)
-            fresh = _mk_options(tdgl, os.path.join(td, "o_main.h5"))
-            for k, v in vars(fresh).items():
-                setattr(o, k, v)
+            # the user sets back exactly the options they had changed for the first run
+            for k in ("adaptive", "include_screening", "solve_time", "save_every", "dt_init", "output_file"):
+                setattr(o, k, getattr(fresh, k))
             f, c = _mk_drive(tdgl)
             compare("options object reused after a fixed-step, unscreened run", run(fresh_device(), o, f, c))
         guarded("options reused", h_options)
@@ -167,6 +175,36 @@ def search(seed=0, reduced=False):
             keep = (before, after)
             return keep
         guarded("other solver alive", h_other)
+
+        # ---- the same with a solver that never refreshes its operators (static field, no screening) and whose kernel / operators could be taken
+        # from another solver: run on fresh objects first, then with other solvers (other layer, other field) built around it
+        def h_other_static():
+            nonlocal n
+
+            def opt(nm):
+                o = _mk_options(tdgl, os.path.join(td, nm), screening=False)
+                o.solve_time = 0.3
+                return o
+            ref_b = _read(run(fresh_device(), opt("b_fresh.h5"), 0.4, dict(source=2.0, drain=-2.0)).path)
+            n += 1
+            d = fresh_device()
+            main = TDGLSolver(d, opt("b_main.h5"), applied_vector_potential=0.4, terminal_currents=dict(source=2.0, drain=-2.0))
+            f, c = _mk_drive(tdgl)
+            o2 = opt("b_other.h5")
+            o2.solve_time = 0.05
+            other = TDGLSolver(d, o2, applied_vector_potential=f, terminal_currents=dict(source=0.5, drain=-0.5))
+            o3 = opt("b_other2.h5")
+            o3.solve_time = 0.05
+            other2 = TDGLSolver(d, o3, applied_vector_potential=1.3)
+            other.solve()
+            got = _read(main.solve().path)
+            n += 1
+            dd = _diff(ref_b, got)
+            if dd:
+                bad.append(dict(history="static-field solver, solved after two other solvers were built on the same device (one of them run)",
+                                what="the recorded simulation differs from the one run on freshly built objects", **dd))
+            return other2
+        guarded("other solver alive (static field)", h_other_static)
 
         # ---- the same solver solved before
         def h_twice():
